@@ -3,6 +3,7 @@
 pub mod der;
 pub mod findings;
 pub mod forge;
+pub mod fuzzing;
 pub mod gen;
 pub mod keys;
 pub mod mk;
